@@ -9,7 +9,7 @@ def run(ctx):
                 "with twins; model theorems TwinNeutral and OnlyTwins; the harness replays all permutations through the five entry "
                 "points. distinct_nontrivial = cases whose expected class is not 'none'")
     ctx.assumptions = ["twins are rendered by appending ',badfilter' to the same text; reordered value lists are neither required nor forbidden to be twins"]
-    cfgs = [(3, 1)] if ctx.tier == "quick" else [(4, 2)]
+    cfgs = [(3, 1)] if ctx.tier == "quick" else [(4, 0), (3, 2)]      # (4, 2) over the 47-rule pool would be 10^6 cases
     verdictcheck.run(ctx, "badfilter", cfgs, why_filter=lambda m: "outranked" not in m["why"])
 
 
